@@ -216,6 +216,7 @@ func cmdTwin(args []string) {
 	totalBlocks, totalTxs, crashPoints, reopens := 0, 0, 0, 0
 	kinds := map[string]int{}
 	results := map[string]int{}
+	events := map[string]int{}
 	var samples []string
 	focuses := []string{"mixed", "fees", "reggov", "stream", "efund"}
 	for i := 0; i < *n; i++ {
@@ -227,12 +228,16 @@ func cmdTwin(args []string) {
 		h := newHistory(c, r, w)
 		h.focus = focuses[i%len(focuses)]
 		h.futureSubmit = 2 // values a node could be tempted to compare with its own clock
+		h.twinValidator = true
 		h.run(*blocks)
 		for k, v := range h.kinds {
 			kinds[k] += v
 		}
 		for k, v := range h.results {
 			results[k] += v
+		}
+		for k, v := range h.flags {
+			events[k] += v
 		}
 		tf := twinFile{Genesis: c.genesisBytes, GenesisNs: c.genesisTime.UnixNano(), Blocks: c.blocks, Results: c.results}
 		// only fully committed blocks are replayed
@@ -301,7 +306,7 @@ func cmdTwin(args []string) {
 	writeJSON(filepath.Join(*out, "stats_twin.json"), map[string]interface{}{
 		"files": []string{}, "evaluations": totalBlocks * 3, "distinct_nontrivial": *n,
 		"rule":         "each random history (all custom message types, failing and panicking transactions, governance) is executed in the generating process (memdb) and replayed from the recorded transaction bytes in three further processes: goleveldb with GOMAXPROCS=1 started 1.1 s later; goleveldb with the application object dropped and reopened at the chosen crash points (after BeginBlock, after the k-th DeliverTx, after EndBlock, after Commit) and the interrupted block replayed; memdb. Compared: app hash per height, (code, codespace, data, gas wanted, gas used) per transaction, height and hash after every reopen. evaluations = block executions compared",
-		"distribution": map[string]interface{}{"histories": *n, "blocks": totalBlocks, "txs": totalTxs, "crash_points": crashPoints, "reopens": reopens, "by_message_kind": kinds, "by_result_class": results},
+		"distribution": map[string]interface{}{"histories": *n, "blocks": totalBlocks, "txs": totalTxs, "crash_points": crashPoints, "reopens": reopens, "by_message_kind": kinds, "by_result_class": results, "events": events},
 		"samples":      samples, "go_monitor_failures": failures,
 	})
 }
